@@ -31,6 +31,7 @@ def oracle(seq_ops, impl):
         t = o.split()
         if t[0] == 'seq': continue
         if r == 'panic': return i, 'panic inside the adapter contract'
+        if r.startswith('HELD-CHANGED'): return i, 'zero-copy ' + r[13:]
         if len(t) >= 3 and t[2] == 'new': kind = t[0]; continue
         res, _, dump = r.partition(' ## ')
         f = dict(x.split('=') for x in dump.split() if '=' in x)
